@@ -654,4 +654,331 @@ theorem parseModel_eval (toks : Array PTok) (fuel : Nat) (context : List Name) (
 
 end Corollaries
 
+/-! ## The NUMBER of definition-order diagnostics only depends on the de Bruijn term
+
+`check_definitions` reads of the resolved term: its shape, `isValue` / `freeVars` of the erased
+definitions, and source ranges only to put them into diagnostics. -/
+
+section CheckCount
+
+/-- two definition vectors `check_definition` cannot tell apart as far as counting goes -/
+structure ArrC (A B : Array (Name × RTm × RTm)) : Prop where
+  size : A.size = B.size
+  val : ∀ i : Nat, isValue (A[i]!).2.2.erase = isValue (B[i]!).2.2.erase
+  fv : ∀ i : Nat, freeVars (A[i]!).2.2.erase 0 = freeVars (B[i]!).2.2.erase 0
+
+def cnt (p : CheckSt) : List Nat × Nat := (p.1, p.2.length)
+
+theorem map_cnt_cases {x y : Option CheckSt} (h : x.map cnt = y.map cnt) :
+    (x = none ∧ y = none) ∨ ∃ v e1 e2, x = some (v, e1) ∧ y = some (v, e2) ∧ e1.length = e2.length := by
+  cases x with
+  | none => cases y with
+    | none => exact .inl ⟨rfl, rfl⟩
+    | some _ => cases h
+  | some p => cases y with
+    | none => cases h
+    | some q =>
+      obtain ⟨v, e1⟩ := p
+      obtain ⟨w, e2⟩ := q
+      simp only [Option.map_some, cnt, Option.some.injEq, Prod.mk.injEq] at h
+      obtain ⟨rfl, hl⟩ := h
+      exact .inr ⟨v, e1, e2, rfl, rfl, hl⟩
+
+theorem checkVariables_cnt {A B : Array (Name × RTm × RTm)} (h : ArrC A B) (start : Nat)
+    (recA recB : Nat → CheckSt → Option CheckSt)
+    (hrec : ∀ i v e1 e2, e1.length = e2.length →
+      (recA i (v, e1)).map cnt = (recB i (v, e2)).map cnt) :
+    ∀ (vars : List Nat) (v : List Nat) (e1 e2 : List PErr), e1.length = e2.length →
+      (checkVariables A start recA vars (v, e1)).map cnt =
+        (checkVariables B start recB vars (v, e2)).map cnt
+  | [], v, e1, e2, hl => by simp [checkVariables, cnt, hl]
+  | var :: rest, v, e1, e2, hl => by
+      have ih := checkVariables_cnt h start recA recB hrec rest
+      simp only [checkVariables, h.size, h.val]
+      split
+      · split
+        · exact ih v e1 e2 hl
+        · split
+          · rcases map_cnt_cases (hrec (B.size - 1 - var) ((B.size - 1 - var) :: v) e1 e2 hl) with
+              ⟨ha, hb⟩ | ⟨v', f1, f2, ha, hb, hl'⟩
+            · rw [ha, hb]
+            · rw [ha, hb]; exact ih v' f1 f2 hl'
+          · split
+            · exact ih _ _ _ (by simp [hl])
+            · exact ih _ e1 e2 hl
+      · exact ih v e1 e2 hl
+
+theorem checkDefinition_cnt {A B : Array (Name × RTm × RTm)} (h : ArrC A B) (start : Nat) :
+    ∀ (fuel cur : Nat) (v : List Nat) (e1 e2 : List PErr), e1.length = e2.length →
+      (checkDefinition A start fuel cur (v, e1)).map cnt =
+        (checkDefinition B start fuel cur (v, e2)).map cnt
+  | 0, _, _, _, _, _ => by simp [checkDefinition]
+  | fuel + 1, cur, v, e1, e2, hl => by
+      simp only [checkDefinition, h.fv]
+      exact checkVariables_cnt h start _ _
+        (fun i v e1 e2 hl => checkDefinition_cnt h start fuel i v e1 e2 hl) _ v e1 e2 hl
+
+theorem checkEachDefinition_cnt {A B : Array (Name × RTm × RTm)} (h : ArrC A B) :
+    ∀ (is : List Nat) (e1 e2 : List PErr), e1.length = e2.length →
+      (checkEachDefinition A is e1).map List.length = (checkEachDefinition B is e2).map List.length
+  | [], e1, e2, hl => by simp [checkEachDefinition, Except.map, hl]
+  | i :: rest, e1, e2, hl => by
+      have ih := checkEachDefinition_cnt h rest
+      simp only [checkEachDefinition, h.val, h.size]
+      split
+      · rcases map_cnt_cases (checkDefinition_cnt h i (B.size + 1) i [] e1 e2 hl) with
+          ⟨ha, hb⟩ | ⟨v', f1, f2, ha, hb, hl'⟩
+        · rw [ha, hb]
+        · rw [ha, hb]; exact ih f1 f2 hl'
+      · exact ih e1 e2 hl
+
+theorem getElem!_cons_toArray {α : Type} [Inhabited α] (x : α) (l : List α) :
+    ((x :: l).toArray[0]! = x) ∧ ∀ i, (x :: l).toArray[i + 1]! = l.toArray[i]! := by
+  constructor
+  · simp
+  · intro i; simp [List.getElem!_eq_getElem?_getD]
+
+theorem arrC_of_erase : ∀ (ds ds' : RDefs), ds.erase = ds'.erase →
+    ds.len = ds'.len ∧ ds.toList.length = ds'.toList.length ∧
+      ∀ i : Nat, (ds.toList.toArray[i]!).2.2.erase = (ds'.toList.toArray[i]!).2.2.erase
+  | .nil, .nil, _ => ⟨rfl, rfl, fun _ => rfl⟩
+  | .nil, .cons _ _ _ _, h => by simp [RDefs.erase] at h
+  | .cons _ _ _ _, .nil, h => by simp [RDefs.erase] at h
+  | .cons x a d r, .cons x' a' d' r', h => by
+      simp only [RDefs.erase, Defs.cons.injEq] at h
+      obtain ⟨_, _, hd, hr⟩ := h
+      obtain ⟨h1, h2, h3⟩ := arrC_of_erase r r' hr
+      refine ⟨by simp [RDefs.len, h1], by simp [RDefs.toList, h2], ?_⟩
+      intro i
+      simp only [RDefs.toList]
+      cases i with
+      | zero => rw [(getElem!_cons_toArray _ _).1, (getElem!_cons_toArray _ _).1]; exact hd
+      | succ i => rw [(getElem!_cons_toArray _ _).2, (getElem!_cons_toArray _ _).2]; exact h3 i
+
+theorem arrC_of_erase' {ds ds' : RDefs} (h : ds.erase = ds'.erase) :
+    ArrC ds.toList.toArray ds'.toList.toArray := by
+  obtain ⟨_, h2, h3⟩ := arrC_of_erase ds ds' h
+  exact ⟨by simpa using h2, fun i => by rw [h3 i], fun i => by rw [h3 i]⟩
+
+theorem except_len_cases {x y : Except Fail (List PErr)}
+    (h : x.map List.length = y.map List.length) :
+    (∃ f, x = .error f ∧ y = .error f) ∨ ∃ e1 e2, x = .ok e1 ∧ y = .ok e2 ∧ e1.length = e2.length := by
+  cases x with
+  | error f => cases y with
+    | error g => simp only [Except.map, Except.error.injEq] at h; subst h; exact .inl ⟨f, rfl, rfl⟩
+    | ok _ => simp [Except.map] at h
+  | ok e1 => cases y with
+    | error g => simp [Except.map] at h
+    | ok e2 => simp only [Except.map, Except.ok.injEq] at h; exact .inr ⟨e1, e2, rfl, rfl, h⟩
+
+mutual
+theorem checkDefinitions_cnt : ∀ (t u : RTm) (depth : Nat) (e1 e2 : List PErr),
+    t.erase = u.erase → e1.length = e2.length →
+    (checkDefinitions t depth e1).map List.length = (checkDefinitions u depth e2).map List.length
+  | .mk _ (.hole _ _), .mk _ v', _, _, _, he, hl => by
+      cases v' <;> simp only [RTm.erase, reduceCtorEq, Tm.hole.injEq] at he
+      obtain ⟨_, rfl⟩ := he
+      simp only [checkDefinitions]; split <;> simp [Except.map, hl]
+  | .mk _ .type, .mk _ v', _, _, _, he, hl | .mk _ .int, .mk _ v', _, _, _, he, hl
+  | .mk _ .bool, .mk _ v', _, _, _, he, hl | .mk _ .tt, .mk _ v', _, _, _, he, hl
+  | .mk _ .ff, .mk _ v', _, _, _, he, hl | .mk _ (.lit _), .mk _ v', _, _, _, he, hl
+  | .mk _ (.var _ _), .mk _ v', _, _, _, he, hl => by
+      cases v' <;> simp only [RTm.erase, reduceCtorEq] at he <;>
+        simp [checkDefinitions, Except.map, hl]
+  | .mk _ (.lam x imp d b), .mk _ v', depth, e1, e2, he, hl => by
+      cases v' <;> simp only [RTm.erase, reduceCtorEq, Tm.lam.injEq] at he
+      obtain ⟨_, _, hd, hb⟩ := he
+      simp only [checkDefinitions]
+      rcases except_len_cases (checkDefinitions_cnt d _ depth e1 e2 hd hl) with
+        ⟨f, ha, hb'⟩ | ⟨f1, f2, ha, hb', hl'⟩
+      · rw [ha, hb']
+      · rw [ha, hb']; exact checkDefinitions_cnt b _ (depth + 1) f1 f2 hb hl'
+  | .mk _ (.pi x imp d b), .mk _ v', depth, e1, e2, he, hl => by
+      cases v' <;> simp only [RTm.erase, reduceCtorEq, Tm.pi.injEq] at he
+      obtain ⟨_, _, hd, hb⟩ := he
+      simp only [checkDefinitions]
+      rcases except_len_cases (checkDefinitions_cnt d _ depth e1 e2 hd hl) with
+        ⟨f, ha, hb'⟩ | ⟨f1, f2, ha, hb', hl'⟩
+      · rw [ha, hb']
+      · rw [ha, hb']; exact checkDefinitions_cnt b _ (depth + 1) f1 f2 hb hl'
+  | .mk _ (.app f a), .mk _ v', depth, e1, e2, he, hl => by
+      cases v' <;> simp only [RTm.erase, reduceCtorEq, Tm.app.injEq] at he
+      obtain ⟨hf, ha'⟩ := he
+      simp only [checkDefinitions]
+      rcases except_len_cases (checkDefinitions_cnt f _ depth e1 e2 hf hl) with
+        ⟨f, ha, hb'⟩ | ⟨f1, f2, ha, hb', hl'⟩
+      · rw [ha, hb']
+      · rw [ha, hb']; exact checkDefinitions_cnt a _ depth f1 f2 ha' hl'
+  | .mk _ (.letg ds b), .mk _ v', depth, e1, e2, he, hl => by
+      cases v' <;> simp only [RTm.erase, reduceCtorEq, Tm.letg.injEq] at he
+      obtain ⟨hds, hb⟩ := he
+      have hA := arrC_of_erase' hds
+      have hlen := (arrC_of_erase _ _ hds).1
+      simp only [checkDefinitions, hA.size, hlen]
+      rcases except_len_cases (checkEachDefinition_cnt hA (List.range _) e1 e2 hl) with
+        ⟨f, ha, hb'⟩ | ⟨f1, f2, ha, hb', hl'⟩
+      · rw [ha, hb']
+      · rw [ha, hb']
+        simp only
+        rcases except_len_cases (checkDefinitionsDefs_cnt ds _ _ f1 f2 hds hl') with
+          ⟨f, ha, hb'⟩ | ⟨g1, g2, ha, hb', hl''⟩
+        · rw [ha, hb']
+        · rw [ha, hb']; exact checkDefinitions_cnt b _ _ g1 g2 hb hl''
+  | .mk _ (.neg a), .mk _ v', depth, e1, e2, he, hl => by
+      cases v' <;> simp only [RTm.erase, reduceCtorEq, Tm.neg.injEq] at he
+      simp only [checkDefinitions]
+      exact checkDefinitions_cnt a _ depth e1 e2 he hl
+  | .mk _ (.bin o a b), .mk _ v', depth, e1, e2, he, hl => by
+      cases v' <;> simp only [RTm.erase, reduceCtorEq, Tm.bin.injEq] at he
+      obtain ⟨_, ha', hb⟩ := he
+      simp only [checkDefinitions]
+      rcases except_len_cases (checkDefinitions_cnt a _ depth e1 e2 ha' hl) with
+        ⟨f, ha, hb'⟩ | ⟨f1, f2, ha, hb', hl'⟩
+      · rw [ha, hb']
+      · rw [ha, hb']; exact checkDefinitions_cnt b _ depth f1 f2 hb hl'
+  | .mk _ (.ite c a b), .mk _ v', depth, e1, e2, he, hl => by
+      cases v' <;> simp only [RTm.erase, reduceCtorEq, Tm.ite.injEq] at he
+      obtain ⟨hc, ha', hb⟩ := he
+      simp only [checkDefinitions]
+      rcases except_len_cases (checkDefinitions_cnt c _ depth e1 e2 hc hl) with
+        ⟨f, ha, hb'⟩ | ⟨f1, f2, ha, hb', hl'⟩
+      · rw [ha, hb']
+      · rw [ha, hb']
+        simp only
+        rcases except_len_cases (checkDefinitions_cnt a _ depth f1 f2 ha' hl') with
+          ⟨f, ha, hb'⟩ | ⟨g1, g2, ha, hb', hl''⟩
+        · rw [ha, hb']
+        · rw [ha, hb']; exact checkDefinitions_cnt b _ depth g1 g2 hb hl''
+theorem checkDefinitionsDefs_cnt : ∀ (ds ds' : RDefs) (depth : Nat) (e1 e2 : List PErr),
+    ds.erase = ds'.erase → e1.length = e2.length →
+    (checkDefinitionsDefs ds depth e1).map List.length =
+      (checkDefinitionsDefs ds' depth e2).map List.length
+  | .nil, .nil, _, _, _, _, hl => by simp [checkDefinitionsDefs, Except.map, hl]
+  | .nil, .cons _ _ _ _, _, _, _, h, _ => by simp [RDefs.erase] at h
+  | .cons _ _ _ _, .nil, _, _, _, h, _ => by simp [RDefs.erase] at h
+  | .cons x a d r, .cons x' a' d' r', depth, e1, e2, h, hl => by
+      simp only [RDefs.erase, Defs.cons.injEq] at h
+      obtain ⟨_, _, hd, hr⟩ := h
+      simp only [checkDefinitionsDefs]
+      rcases except_len_cases (checkDefinitions_cnt d _ depth e1 e2 hd hl) with
+        ⟨f, ha, hb'⟩ | ⟨f1, f2, ha, hb', hl'⟩
+      · rw [ha, hb']
+      · rw [ha, hb']; exact checkDefinitionsDefs_cnt r r' depth f1 f2 hr hl'
+end
+
+end CheckCount
+
+/-! ## The front-end outcome of a sentence only depends on `resView` of re-association + resolution
+
+This reduces every token-level rewrite statement ("the two token arrays are sentences with trees `t`,
+`t'`") to the statement about the three passes and `resolve` on the two trees. -/
+
+section Reduction
+
+/-- the outcome of `parse` up to source ranges: the de Bruijn term, the NUMBER of diagnostics -/
+inductive OutE
+  | ok (t : Tm)
+  | errors (n : Nat)
+  | panic
+  | outOfFuel
+deriving DecidableEq
+
+def outE : ParseOutcome → OutE
+  | .ok t => .ok t.erase
+  | .errors es => .errors es.length
+  | .panic => .panic
+  | .outOfFuel => .outOfFuel
+
+def st0 (context : List Name) : RState := { ctx := initialContext context, errors := [], nextHole := 0 }
+
+theorem finishResolved_none {context : List Name} {t3 : Src}
+    (h : resolve t3 (initialContext context).length (st0 context) = none) :
+    finishResolved context t3 = .panic := by
+  unfold finishResolved; simp only; rw [show ({ ctx := initialContext context, errors := [], nextHole := 0 } : RState) = st0 context from rfl, h]
+
+theorem finishResolved_some {context : List Name} {t3 : Src} {r : RTm} {s : RState}
+    (h : resolve t3 (initialContext context).length (st0 context) = some (r, s)) :
+    finishResolved context t3 =
+      match checkDefinitions r s.ctx.length s.errors with
+      | .error .panic => .panic
+      | .error .outOfFuel => .outOfFuel
+      | .ok errors => if errors.isEmpty then .ok r else .errors errors := by
+  unfold finishResolved; simp only; rw [show ({ ctx := initialContext context, errors := [], nextHole := 0 } : RState) = st0 context from rfl, h]
+
+theorem finishResolved_resView (context : List Name) {u u' : Src}
+    (h : (resolve u' (initialContext context).length (st0 context)).map RewriteMore.resView =
+      (resolve u (initialContext context).length (st0 context)).map RewriteMore.resView) :
+    outE (finishResolved context u') = outE (finishResolved context u) := by
+  cases e' : resolve u' (initialContext context).length (st0 context) with
+  | none =>
+    rw [e'] at h
+    cases e : resolve u (initialContext context).length (st0 context) with
+    | none => rw [finishResolved_none e', finishResolved_none e]
+    | some _ => rw [e] at h; cases h
+  | some p' =>
+    rw [e'] at h
+    cases e : resolve u (initialContext context).length (st0 context) with
+    | none => rw [e] at h; cases h
+    | some p =>
+      rw [e] at h
+      obtain ⟨r', s'⟩ := p'
+      obtain ⟨r, s⟩ := p
+      simp only [Option.map_some, Option.some.injEq, RewriteMore.resView, Prod.mk.injEq] at h
+      obtain ⟨hv, hc, _, hl⟩ := h
+      rw [finishResolved_some e', finishResolved_some e, hc]
+      rcases except_len_cases (checkDefinitions_cnt r' r s.ctx.length s'.errors s.errors hv hl) with
+        ⟨f, ha, hb⟩ | ⟨f1, f2, ha, hb, hl'⟩
+      · rw [ha, hb]; cases f <;> rfl
+      · rw [ha, hb]
+        simp only
+        have he : f1.isEmpty = f2.isEmpty := by
+          rw [Bool.eq_iff_iff, List.isEmpty_iff_length_eq_zero, List.isEmpty_iff_length_eq_zero, hl']
+        rw [he]
+        split
+        · simp only [outE, hv]
+        · simp only [outE, hl']
+
+/-- **Reduction.**  Two sentences (any two token arrays) whose parse trees are taken by the three
+passes and `resolve` (from the initial state of the parameter context) to the same `resView` have the
+same front-end outcome up to ranges: the same de Bruijn term, or the same number of diagnostics. -/
+theorem parseModel_of_resView {toks toks' : Array PTok} {t t' : Src} (context : List Name)
+    (h : SegT toks .term 0 toks.size t) (h' : SegT toks' .term 0 toks'.size t')
+    (hr : (RewriteMore.reassocResolve t' (initialContext context).length (st0 context)).map
+        RewriteMore.resView =
+      (RewriteMore.reassocResolve t (initialContext context).length (st0 context)).map
+        RewriteMore.resView) :
+    outE (parseModel toks' context) = outE (parseModel toks context) := by
+  rw [parseModel_sentence h' context, parseModel_sentence h context,
+    finishParse_clean toks' context t' (ce_segT h'), finishParse_clean toks context t (ce_segT h)]
+  unfold RewriteMore.reassocResolve at hr
+  cases e' : RewriteMore.reassocAll t' with
+  | none =>
+    rw [e'] at hr
+    cases e : RewriteMore.reassocAll t with
+    | none => rfl
+    | some u =>
+      rw [e] at hr
+      simp only at hr ⊢
+      cases e2 : resolve u (initialContext context).length (st0 context) with
+      | none => rw [finishResolved_none e2]
+      | some _ => rw [e2] at hr; cases hr
+  | some u' =>
+    rw [e'] at hr
+    cases e : RewriteMore.reassocAll t with
+    | none =>
+      rw [e] at hr
+      simp only at hr ⊢
+      cases e2 : resolve u' (initialContext context).length (st0 context) with
+      | none => rw [finishResolved_none e2]
+      | some _ => rw [e2] at hr; cases hr
+    | some u =>
+      rw [e] at hr
+      exact finishResolved_resView context hr
+
+end Reduction
+
+/-- the token array with the segment `[a, b)` put in parentheses (two more tokens) -/
+def spliceParens (toks : Array PTok) (a b : Nat) (lp rp : PTok) : Array PTok :=
+  toks.extract 0 a ++ #[lp] ++ toks.extract a b ++ #[rp] ++ toks.extract b toks.size
+
 end ParenTokens
